@@ -77,6 +77,17 @@ func TestC20Malformed(t *testing.T) {
 		u := fixedUUID.String()
 		var rendered, code string
 		var surf surface
+		// pickSurface draws the surface a mutation is applied to. Compact
+		// binaries can only be malformed by hand while the package uses the
+		// layout this check knows (see helpers_test.go).
+		pickSurface := func(options ...surface) surface {
+			sf := rapid.SampledFrom(options).Draw(t, "surface")
+			if sf == sCompact && !compactIsReference() {
+				c.Class("compact_layout_not_reference")
+				return sRead
+			}
+			return sf
+		}
 
 		// parsePath feeds components to the read or write path parser.
 		parsePath := func(sf surface, comps []string) (digest.Digest, error) {
@@ -106,7 +117,7 @@ func TestC20Malformed(t *testing.T) {
 
 		switch kind {
 		case "hash_length":
-			surf = rapid.SampledFrom([]surface{sRead, sWrite, sProto}).Draw(t, "surface")
+			surf = pickSurface(sRead, sWrite, sProto)
 			want := len(s.hash)
 			var l int
 			switch rapid.IntRange(0, 3).Draw(t, "len/how") {
@@ -150,7 +161,7 @@ func TestC20Malformed(t *testing.T) {
 			c.ClassIf(inferable, "hash_length_valid_for_other_function")
 
 		case "hash_uppercase", "hash_nonhex":
-			surf = rapid.SampledFrom([]surface{sRead, sWrite, sProto, sProto}).Draw(t, "surface")
+			surf = pickSurface(sRead, sWrite, sProto, sProto)
 			i := rapid.IntRange(0, len(s.hash)-1).Draw(t, "pos")
 			var repl byte
 			if kind == "hash_uppercase" {
@@ -177,7 +188,7 @@ func TestC20Malformed(t *testing.T) {
 			}
 
 		case "size_negative":
-			surf = rapid.SampledFrom([]surface{sRead, sWrite, sProto, sCompact}).Draw(t, "surface")
+			surf = pickSurface(sRead, sWrite, sProto, sCompact)
 			neg := -rapid.Int64Range(1, math.MaxInt64).Draw(t, "neg")
 			switch rapid.IntRange(0, 3).Draw(t, "neg/how") {
 			case 0:
@@ -207,7 +218,7 @@ func TestC20Malformed(t *testing.T) {
 			}
 
 		case "size_nonnumeric", "size_overflow":
-			surf = rapid.SampledFrom([]surface{sRead, sWrite}).Draw(t, "surface")
+			surf = pickSurface(sRead, sWrite)
 			var sz string
 			if kind == "size_nonnumeric" {
 				sz = rapid.SampledFrom(nonNumericSizes).Draw(t, "size")
@@ -222,7 +233,7 @@ func TestC20Malformed(t *testing.T) {
 					sz = strconv.FormatInt(math.MaxInt64, 10) + strconv.Itoa(rapid.IntRange(0, 9).Draw(t, "size/digit"))
 				}
 			}
-			if surf == sRead && rapid.IntRange(0, 4).Draw(t, "compact_overflow") == 0 && kind == "size_overflow" {
+			if surf == sRead && rapid.IntRange(0, 4).Draw(t, "compact_overflow") == 0 && kind == "size_overflow" && compactIsReference() {
 				// The binary form of an overflowing size: an 11 byte varint.
 				surf = sCompact
 				b := append(append([]byte{byte(s.fn)}, hb...), bytes.Repeat([]byte{0xff}, 10)...)
@@ -236,7 +247,7 @@ func TestC20Malformed(t *testing.T) {
 			}
 
 		case "reserved_keyword":
-			surf = rapid.SampledFrom([]surface{sInstance, sInstance, sRead, sWrite}).Draw(t, "surface")
+			surf = pickSurface(sInstance, sInstance, sRead, sWrite)
 			kw := rapid.SampledFrom(reservedKeywords).Draw(t, "keyword")
 			i := rapid.IntRange(0, len(s.comps)).Draw(t, "pos")
 			comps := append(append(append([]string(nil), s.comps[:i]...), kw), s.comps[i:]...)
@@ -287,7 +298,7 @@ func TestC20Malformed(t *testing.T) {
 			code = status.Code(err).String()
 
 		case "unknown_function":
-			surf = rapid.SampledFrom([]surface{sRead, sWrite, sProto, sCompact}).Draw(t, "surface")
+			surf = pickSurface(sRead, sWrite, sProto, sCompact)
 			switch surf {
 			case sProto, sCompact:
 				e := rapid.SampledFrom(unknownFnEnums).Draw(t, "enum")
@@ -321,7 +332,7 @@ func TestC20Malformed(t *testing.T) {
 			}
 
 		case "unknown_compressor":
-			surf = rapid.SampledFrom([]surface{sRead, sWrite}).Draw(t, "surface")
+			surf = pickSurface(sRead, sWrite)
 			name := rapid.SampledFrom(unknownCompressors).Draw(t, "name")
 			var comps []string
 			comps = append(comps, s.comps...)
@@ -334,7 +345,7 @@ func TestC20Malformed(t *testing.T) {
 			code = rejected(t, string(surf)+" path naming compressor "+name, rendered, d, err)
 
 		case "truncated":
-			surf = rapid.SampledFrom([]surface{sRead, sRead, sWrite, sWrite, sCompact}).Draw(t, "surface")
+			surf = pickSurface(sRead, sRead, sWrite, sWrite, sCompact)
 			if surf == sCompact {
 				full := binary.AppendVarint(append([]byte{byte(s.fn)}, hb...), s.size)
 				n := rapid.IntRange(0, len(full)-1).Draw(t, "keep")
